@@ -96,6 +96,21 @@ type WS struct {
 	// bookkeeping of the generator, for distribution counters
 	PlantedDup, PlantedMissing, PlantedFileCycle, PlantedNoProto bool
 	HasCommitTie                                                 bool
+	// Locked workspaces (GenLocked / BuildLocked, see locked.go): a v1 workspace whose modules
+	// each have their own buf.lock, or a v2 workspace with one top-level buf.lock, read through
+	// the real buffetch reader for the given Input.  In Added the remote modules that directly
+	// precede a local module are the pins of that module's buf.lock (v1); for v2 all remote
+	// modules are the pins of the single buf.lock.
+	Locked bool
+	Input  *Input
+	// NoDigest lists "name#commit" pins written WITHOUT a digest (pre-1.10 buf.lock: the digest
+	// is resolved through CommitProvider.GetCommitsForCommitKeys).
+	NoDigest map[string]bool
+	// bookkeeping of the locked generator, for distribution counters
+	PinConflict, LocalShadowsPin, BorrowedPin bool
+	// NonTargetOnlyPins: names pinned in the buf.lock of some NON-target module and in no
+	// target module's buf.lock (v1).
+	NonTargetOnlyPins map[string]bool
 }
 
 var wktMsg = map[string]string{
@@ -690,6 +705,44 @@ func encList(xs []string) string {
 
 // Line encodes the added modules for the Lean driver (see lean/Driver/C10.lean).
 func (ws *WS) Line() string {
+	mods := ws.encAdded()
+	return strings.Join(mods, ";")
+}
+
+// LockedLine encodes a locked workspace with its structure: `wsl <TAB> v1 <TAB> group#group…`
+// (one group per buf.work.yaml directory: the pins of its buf.lock, then the local module) or
+// `wsl <TAB> v2 <TAB> lock#locals`.  The model derives the add order itself (v1Adds / v2Adds).
+func (ws *WS) LockedLine() string {
+	mods := ws.encAdded()
+	var groups []string
+	var cur []string
+	if ws.Kind == "v1" {
+		for i := range ws.Added {
+			cur = append(cur, mods[i])
+			if ws.Added[i].Local {
+				groups = append(groups, strings.Join(cur, ";"))
+				cur = nil
+			}
+		}
+	} else {
+		var lock, locs []string
+		for i := range ws.Added {
+			if ws.Added[i].Local {
+				locs = append(locs, mods[i])
+			} else {
+				lock = append(lock, mods[i])
+			}
+		}
+		l := "_"
+		if len(lock) > 0 {
+			l = strings.Join(lock, ";")
+		}
+		groups = []string{l, strings.Join(locs, ";")}
+	}
+	return "wsl\t" + ws.Kind + "\t" + strings.Join(groups, "#")
+}
+
+func (ws *WS) encAdded() []string {
 	ranks := ws.OIDRanks()
 	names := ws.NameLabels()
 	cranks := ws.CommitRanks()
@@ -731,7 +784,7 @@ func (ws *WS) Line() string {
 			strconv.Itoa(ranks[a.OID()]), b01(a.Local), b01(a.Target), strconv.Itoa(cranks[a.Name+"#"+strconv.Itoa(a.Commit)]),
 			strconv.FormatInt(a.CTime, 10), name, encList(a.Paths), encList(a.Excludes), pf, files}, ":"))
 	}
-	return strings.Join(mods, ";")
+	return mods
 }
 
 func b01(b bool) string {
@@ -749,6 +802,8 @@ type Provider struct {
 	byCommit map[uuid.UUID]*provEntry
 	// Calls counts provider calls (the ModuleSetBuilder must not fetch modules it drops).
 	DataCalls []string
+	// CommitKeyCalls counts digest resolutions of digest-less v1 buf.lock pins.
+	CommitKeyCalls int
 }
 
 type provEntry struct {
@@ -756,7 +811,10 @@ type provEntry struct {
 	commit int
 	ctime  int64
 	bucket storage.ReadBucket
-	digest bufmodule.Digest
+	digest bufmodule.Digest // B5 (v2 buf.lock)
+	// digestB4 is the B4 digest (v1 buf.lock): the manifest digest of the files, no v1 buf.yaml /
+	// buf.lock object data.
+	digestB4 bufmodule.Digest
 }
 
 func bucketFor(files []File) (storage.ReadBucket, error) {
@@ -801,11 +859,47 @@ func b5Digest(ctx context.Context, bucket storage.ReadBucket) (bufmodule.Digest,
 }
 
 func (p *Provider) key(e *provEntry) (bufmodule.ModuleKey, error) {
+	return p.keyFor(e, bufmodule.DigestTypeB5)
+}
+
+func (p *Provider) keyFor(e *provEntry, dt bufmodule.DigestType) (bufmodule.ModuleKey, error) {
 	fn, err := bufparse.ParseFullName(e.name)
 	if err != nil {
 		return nil, err
 	}
-	return bufmodule.NewModuleKey(fn, commitUUID(e.name, e.commit), func() (bufmodule.Digest, error) { return e.digest, nil })
+	d := e.digest
+	if dt == bufmodule.DigestTypeB4 {
+		d = e.digestB4
+	}
+	return bufmodule.NewModuleKey(fn, commitUUID(e.name, e.commit), func() (bufmodule.Digest, error) { return d, nil })
+}
+
+// b4Digest computes the B4 digest of a module without v1 buf.yaml / buf.lock object data.
+func b4Digest(ctx context.Context, bucket storage.ReadBucket) (bufmodule.Digest, error) {
+	var nodes []bufcas.FileNode
+	if err := storage.WalkReadObjects(ctx, bucket, "", func(ro storage.ReadObject) error {
+		d, err := bufcas.NewDigestForContent(ro)
+		if err != nil {
+			return err
+		}
+		n, err := bufcas.NewFileNode(ro.Path(), d)
+		if err != nil {
+			return err
+		}
+		nodes = append(nodes, n)
+		return nil
+	}); err != nil {
+		return nil, err
+	}
+	manifest, err := bufcas.NewManifest(nodes)
+	if err != nil {
+		return nil, err
+	}
+	md, err := bufcas.ManifestToDigest(manifest)
+	if err != nil {
+		return nil, err
+	}
+	return bufmodule.NewDigest(bufmodule.DigestTypeB4, md)
 }
 
 func (p *Provider) GetModuleDatasForModuleKeys(ctx context.Context, keys []bufmodule.ModuleKey) ([]bufmodule.ModuleData, error) {
@@ -846,10 +940,11 @@ func (p *Provider) GetCommitsForCommitKeys(ctx context.Context, keys []bufmodule
 		if !ok {
 			return nil, &os.PathError{Op: "read", Path: uuidutil.ToDashless(k.CommitID()), Err: os.ErrNotExist}
 		}
-		mk, err := p.key(e)
+		mk, err := p.keyFor(e, k.DigestType())
 		if err != nil {
 			return nil, err
 		}
+		p.CommitKeyCalls++
 		t := time.Unix(e.ctime, 0)
 		out[i] = bufmodule.NewCommit(mk, func() (time.Time, error) { return t, nil })
 	}
@@ -868,6 +963,8 @@ type Built struct {
 	CommitLabel map[uuid.UUID]int
 	// Root is the directory as the user would give it (disk kinds).
 	Root string
+	// Close releases the source bucket (locked workspaces); may be nil.
+	Close func() error
 }
 
 func (ws *WS) provider(ctx context.Context) (*Provider, map[uuid.UUID]int, error) {
@@ -892,7 +989,11 @@ func (ws *WS) provider(ctx context.Context) (*Provider, map[uuid.UUID]int, error
 		if err != nil {
 			return nil, nil, err
 		}
-		p.byCommit[id] = &provEntry{name: a.Name, commit: a.Commit, ctime: a.CTime, bucket: bucket, digest: digest}
+		digestB4, err := b4Digest(ctx, bucket)
+		if err != nil {
+			return nil, nil, err
+		}
+		p.byCommit[id] = &provEntry{name: a.Name, commit: a.Commit, ctime: a.CTime, bucket: bucket, digest: digest, digestB4: digestB4}
 	}
 	return p, labels, nil
 }
